@@ -1,6 +1,7 @@
 package props
 
 import (
+	"fmt"
 	"go/constant"
 	"go/types"
 	"strings"
@@ -103,6 +104,64 @@ func strEmptyKey(a, b pred.Val) (string, bool) {
 		}
 	}
 	return "", false
+}
+
+// byteSinkSummaries models bytes.Buffer as an append-only byte sequence held in a cell, and fmt's printing functions
+// as one uninterpreted rendering fmt.Sprintf(format, args) wherever it is sent (a writer that is such a buffer, a
+// byte slice, a string).
+func byteSinkSummaries() map[string]pred.Summary {
+	sink := func(v pred.Val) (*pred.Cell, error) {
+		if i, ok := v.(pred.Iface); ok {
+			v = i.V
+		}
+		if p, ok := v.(pred.Ptr); ok && p.Cell != nil && p.Cell.Name == "bytes.Buffer" && len(p.Path) == 0 {
+			return p.Cell, nil
+		}
+		return nil, &pred.Undecided{Reason: fmt.Sprintf("writer %v is not a bytes.Buffer created in the function", v)}
+	}
+	app := func(a, b pred.Val) pred.Val { return pred.Term{Fn: "builtin.append", Args: []pred.Val{a, b}} }
+	write := func(ev *pred.Evaluator, args []pred.Val) (pred.Val, error) {
+		c, err := sink(args[0])
+		if err != nil {
+			return nil, err
+		}
+		c.V = app(c.V, args[1])
+		return pred.Tuple{pred.Term{Fn: "builtin.len", Args: []pred.Val{args[1]}}, pred.Const{}}, nil
+	}
+	newBuf := func(ev *pred.Evaluator, args []pred.Val) (pred.Val, error) {
+		return pred.Ptr{Cell: &pred.Cell{V: args[0], Name: "bytes.Buffer"}}, nil
+	}
+	content := func(ev *pred.Evaluator, args []pred.Val) (pred.Val, error) {
+		c, err := sink(args[0])
+		if err != nil {
+			return nil, err
+		}
+		return c.V, nil
+	}
+	render := func(args []pred.Val) pred.Val { return pred.Term{Fn: "fmt.Sprintf", Args: args} }
+	return map[string]pred.Summary{
+		"bytes.NewBuffer":             newBuf,
+		"bytes.NewBufferString":       newBuf,
+		"(*bytes.Buffer).Write":       write,
+		"(*bytes.Buffer).WriteString": write,
+		"(*bytes.Buffer).Bytes":       content,
+		"(*bytes.Buffer).String":      content,
+		"fmt.Sprintf": func(ev *pred.Evaluator, args []pred.Val) (pred.Val, error) {
+			return render(args), nil
+		},
+		"fmt.Appendf": func(ev *pred.Evaluator, args []pred.Val) (pred.Val, error) {
+			return app(args[0], render(args[1:])), nil
+		},
+		"fmt.Fprintf": func(ev *pred.Evaluator, args []pred.Val) (pred.Val, error) {
+			c, err := sink(args[0])
+			if err != nil {
+				return nil, err
+			}
+			r := render(args[1:])
+			c.V = app(c.V, r)
+			return pred.Tuple{pred.Term{Fn: "builtin.len", Args: []pred.Val{r}}, pred.Const{}}, nil
+		},
+	}
 }
 
 // globalTables is the evaluator hook for package-level literal tables: a slice or array of constants that no
